@@ -76,7 +76,7 @@ int run_scan(const Args& a) {
         ses.reenter();
         Model model;
         TreeGen tg(r, kg, a.num("maxkeys", 300));
-        int family = static_cast<int>(t % 7);
+        int family = static_cast<int>(t % 8);
         tg.build(ses.tok, storage, model, family);
         Walker w(true);
         yk::tree_instance* ti = nullptr;
